@@ -23,16 +23,21 @@ Ltac eval_degrees :=
       let v := eval vm_compute in (fst (index_lm z)) in change (fst (index_lm z)) with v
   end.
 
+(* unrolling by rewriting (a `change` would make the conversion checker compare real literals) *)
+Lemma fold_modes_cons {X A : Type} (f : nat -> X -> A -> A) n x l acc :
+  fold_modes f n (x :: l) acc = fold_modes f (S n) l (f n x acc).
+Proof. reflexivity. Qed.
+
+Lemma fold_modes_nil {X A : Type} (f : nat -> X -> A -> A) n acc : fold_modes f n [] acc = acc.
+Proof. reflexivity. Qed.
+
 Ltac run_loops :=
-  repeat match goal with
-  | |- context [fold_modes ?f ?n (?x :: ?l) ?acc] =>
-      change (fold_modes f n (x :: l) acc) with (fold_modes f (S n) l (f n x acc));
-      unfold dist2d_step, curv2d_step, perim_approx2d_step, line2d_step, dist3d_step, curv3d_step,
-        dist3s_step, curv3s_step;
-      cbn [fst snd]; decide_guards; cbn [fst snd]
-  | |- context [fold_modes ?f ?n [] ?acc] =>
-      change (fold_modes f n [] acc) with acc
-  end.
+  repeat first
+  [ rewrite fold_modes_cons;
+    unfold dist2d_step, curv2d_step, perim_approx2d_step, line2d_step, dist3d_step, curv3d_step,
+      dist3s_step, curv3s_step;
+    cbn [fst snd]; decide_guards; cbn [fst snd]
+  | rewrite fold_modes_nil ].
 
 Ltac perturbed_prep :=
   unfold pos2d_0, pos2d_1, unit2d_0, unit2d_1, pos3d_0, pos3d_1, pos3d_2, unit3d_0, unit3d_1, unit3d_2,
